@@ -398,6 +398,7 @@ pub fn minimise(scen: &Scenario, v: &Violation, budget: Duration) -> (Scenario, 
             }
         }
         try_apply(&mut cx, &mut cur, |s| s.config.use_doc_css = false);
+        try_apply(&mut cx, &mut cur, |s| s.config.builder_order = 0);
         try_apply(&mut cx, &mut cur, |s| s.config.allow_width_overflow = false);
         try_apply(&mut cx, &mut cur, |s| s.config.min_wrap_width = None);
         try_apply(&mut cx, &mut cur, |s| s.config.max_wrap_width = None);
